@@ -1884,5 +1884,15 @@ int main(int argc, char *argv[])
 	syn_done();
 	dir_done();
 	tag_done();
+#ifdef NEATVI_VERIF
+	if (getenv("NEATVI_VERIF_STATS")) {
+		extern int re_verif_depcut;
+		FILE *fp = fopen(getenv("NEATVI_VERIF_STATS"), "w");
+		if (fp) {
+			fprintf(fp, "depcut %d\n", re_verif_depcut);
+			fclose(fp);
+		}
+	}
+#endif
 	return 0;
 }
